@@ -175,7 +175,13 @@ impl World {
         let mut sink = LogSink::default();
         let a = action(name, args).expect("action name");
         let storage = self.cs.provider().get_storage(self.graph).expect("storage");
-        let head = storage.get_head_address().expect("single head");
+        let head = {
+            let heads = storage.get_heads().expect("heads");
+            let mut it = heads.iter();
+            let h = it.next().expect("one head");
+            assert!(it.next().is_none(), "single head expected");
+            h.location()
+        };
         let mut persp = storage.get_linear_perspective(head).expect("perspective");
         let r = self.direct.call_action(a, &mut persp, &mut sink, ActionPlacement::OnGraph);
         let snap = names.iter().map(|n| dump(&persp, n)).collect();
